@@ -77,6 +77,11 @@ pub enum Act {
     Register(crate::respond::Svc),
     Unregister(String),
     IpInterval(u32),
+    SetIfs(Vec<IfSpec>),
+    IfSelect(bool, crate::iface::Kind),
+    Monitor,
+    Shutdown,
+    RegisterInfo(Box<mdns_sd::ServiceInfo>),
 }
 
 pub struct Runner {
@@ -91,9 +96,11 @@ pub struct Runner {
     pub answer_prob: (u64, u64),
     sent_seen: usize,
     pub max_iters: u64,
+    /// deliver a datagram only if the host's interface table has the receiving interface up with an address of that family
+    pub link_check: bool,
 }
 
-fn txt_bytes(props: &[(&str, Option<&[u8]>)]) -> Vec<u8> {
+pub fn txt_bytes(props: &[(&str, Option<&[u8]>)]) -> Vec<u8> {
     let mut b = Vec::new();
     for (k, v) in props {
         let mut s = k.as_bytes().to_vec();
@@ -124,6 +131,7 @@ impl Runner {
             answer_prob: (1, 2),
             sent_seen: 0,
             max_iters: 4000,
+            link_check: false,
         }
     }
 
@@ -156,6 +164,13 @@ impl Runner {
         let d = self.d;
         match a {
             Act::Deliver { ifidx, src, msg, compress } => {
+                if self.link_check {
+                    let host = self.sim.daemons[d].host;
+                    let there = self.sim.hosts[host].iter().any(|i| i.index == ifidx && i.up && i.addrs.iter().any(|(a, _)| a.is_ipv4() == src.is_ipv4()));
+                    if !there {
+                        return;
+                    }
+                }
                 let t = self.sim.t();
                 self.schedule_due_ticks(t, &msg);
                 self.sim.deliver(d, ifidx, src, &msg, compress);
@@ -191,6 +206,23 @@ impl Runner {
                 self.sim.unregister(d, &n);
             }
             Act::IpInterval(secs) => self.sim.set_ip_check_interval(d, secs),
+            Act::SetIfs(specs) => {
+                let host = self.sim.daemons[d].host;
+                self.sim.set_ifs(host, specs);
+            }
+            Act::IfSelect(en, kind) => {
+                let j = kind.to_json();
+                self.sim.if_select(d, en, kind.to_ifkind(), j);
+            }
+            Act::Monitor => {
+                self.sim.monitor(d);
+            }
+            Act::RegisterInfo(info) => {
+                self.sim.register(d, *info);
+            }
+            Act::Shutdown => {
+                self.sim.shutdown(d);
+            }
         }
     }
 
